@@ -48,6 +48,10 @@ func c08MapScripts(k *h.Case, g *spec.Gen) *spec.MapScripts {
 			if r.IntN(12) == 0 {
 				rows = 12 + r.IntN(4) // long tables: two-digit row indices
 			}
+			sameShape := r.IntN(6) == 0
+			if sameShape && rows < 2 {
+				rows = 2 + r.IntN(3)
+			}
 			for j := 0; j < rows; j++ {
 				row := &spec.MSRow{ID: g.Prog.NewID(), Var: []string{g.Name("VAR_T")}, Value: []string{fmt.Sprint(r.IntN(9))}}
 				switch r.IntN(7) {
@@ -62,7 +66,18 @@ func c08MapScripts(k *h.Case, g *spec.Gen) *spec.MapScripts {
 					row.Var = []string{"$TBL_VAR"}
 					row.Value = []string{"(", "$TBL_BASE", ")", "*", "2"}
 				}
-				if rows >= 12 && (j == 1 || j == 11) {
+				if sameShape {
+					// rows whose inline scripts have the same shape and differ only in an inline text / moves() argument
+					arg := &spec.Arg{Text: &spec.TextVal{ID: g.Prog.NewID(), Parts: []string{fmt.Sprintf("message %d", j%3)}}}
+					if j%2 == 1 {
+						arg = &spec.Arg{Moves: []*spec.ListElem{{ID: g.Prog.NewID(), Name: []string{"walk_up", "walk_down", "walk_left"}[j%3]}}}
+					}
+					row.Body = &spec.Block{ID: g.Prog.NewID(), Stmts: []spec.Stmt{
+						&spec.CmdStmt{Cmd: &spec.Cmd{ID: g.Prog.NewID(), Name: "lockall"}},
+						&spec.CmdStmt{Cmd: &spec.Cmd{ID: g.Prog.NewID(), Name: "showthing", Args: []*spec.Arg{arg, {Toks: []string{"1"}}}}},
+						&spec.CmdStmt{Cmd: &spec.Cmd{ID: g.Prog.NewID(), Name: "end"}},
+					}}
+				} else if rows >= 12 && (j == 1 || j == 11) {
 					// rows 1 and 11 of a long table: inline scripts with many chunks (two-digit chunk ids
 					// next to two-digit row indices)
 					row.Body = manyChunkBody(g, 10+r.IntN(5))
@@ -104,6 +119,28 @@ func c08MapScripts(k *h.Case, g *spec.Gen) *spec.MapScripts {
 	return m
 }
 
+// dupLabelTypePredicted tells whether some mapscripts statement has two entries of one type that both need
+// the label <map>_<TYPE> (inline script or table): the compiler has to reject such a file.
+func dupLabelTypePredicted(p *spec.Program) bool {
+	for _, it := range p.Items {
+		m, ok := it.(*spec.MapScripts)
+		if !ok {
+			continue
+		}
+		seen := map[string]bool{}
+		for _, e := range m.Entries {
+			if e.Kind == 0 {
+				continue
+			}
+			if seen[e.Type] {
+				return true
+			}
+			seen[e.Type] = true
+		}
+	}
+	return false
+}
+
 // instrFrom returns the code lines (instructions and labels) starting at i
 // until (not including) the first blank line.
 func codeUntilBlank(f *asm.File, i int) []*asm.Line {
@@ -141,6 +178,33 @@ func runC08(ctx *h.Ctx) int {
 				prog.Items = append(prog.Items, g.TextStmt())
 			}
 		}
+		if k.R.IntN(4) == 0 {
+			// label-form entries and rows that name a script of this file or a label statement written inside one
+			// (a secondary entry point): references, not definitions
+			var names []string
+			for _, it := range prog.Items {
+				if sc, ok := it.(*spec.Script); ok {
+					names = append(names, sc.Name)
+					userLabelsOf(sc.Body, &names)
+				}
+			}
+			if len(names) > 0 {
+				for _, m := range maps {
+					for _, e := range m.Entries {
+						if e.Kind == 0 && k.R.IntN(2) == 0 {
+							e.Label = names[k.R.IntN(len(names))]
+							k.Count("entries_naming_a_label_of_the_file", 1)
+						}
+						for _, row := range e.Rows {
+							if row.Body == nil && k.R.IntN(3) == 0 {
+								row.Label = names[k.R.IntN(len(names))]
+								k.Count("entries_naming_a_label_of_the_file", 1)
+							}
+						}
+					}
+				}
+			}
+		}
 		rp, rerr := spec.Resolve(prog, prog.Switches)
 		pr := layoutOf(k, prog, 0.2)
 		k.SetSource(pr.Src)
@@ -150,9 +214,15 @@ func runC08(ctx *h.Ctx) int {
 		if !res.OK() {
 			k.Count("rejected", 1)
 			k.Count("rejected: "+rejectFamily(res.ErrString()), 1)
+			dup := ""
+			if dupLabelTypePredicted(prog) {
+				dup = "duplicate map script type"
+			}
+			rejectedValid(k, prog, res, true, dup)
 			return
 		}
 		if rerr != nil {
+			acceptedUnmatched(k)
 			return
 		}
 		k.Count("accepted", 1)
@@ -246,8 +316,12 @@ func runC08(ctx *h.Ctx) int {
 					return
 				}
 				rows := codeUntilBlank(f, tdefs[0]+1)
-				if len(rows) != len(e.Rows)+1 || strings.TrimSpace(rows[len(rows)-1].Text) != ".2byte 0" {
-					bad("table-shape", "table %s: %d lines, expected %d rows + '.2byte 0'; last line %q", tl, len(rows), len(e.Rows), rows[len(rows)-1].Text)
+				lastRow := ""
+				if len(rows) > 0 {
+					lastRow = rows[len(rows)-1].Text
+				}
+				if len(rows) != len(e.Rows)+1 || strings.TrimSpace(lastRow) != ".2byte 0" {
+					bad("table-shape", "table %s: %d lines, expected %d rows + '.2byte 0'; last line %q", tl, len(rows), len(e.Rows), lastRow)
 					return
 				}
 				for i, r := range e.Rows {
@@ -270,7 +344,15 @@ func runC08(ctx *h.Ctx) int {
 				}
 				k.Count("tables_checked", 1)
 			}
-			// inline scripts: defined once, local, behave like the body
+			// inline scripts: each has a label of its own, defined once, local, behaves like the body
+			seenInline := map[string]bool{}
+			for _, in := range inlines {
+				if seenInline[in.label] {
+					bad("inline-scripts-share-label", "two inline scripts of mapscripts %s are referred to by the same label %q: one of them is not emitted", m.Name, in.label)
+					return
+				}
+				seenInline[in.label] = true
+			}
 			for _, in := range inlines {
 				idefs := f.Labels[in.label]
 				if len(idefs) != 1 {
@@ -299,9 +381,15 @@ func runC08(ctx *h.Ctx) int {
 				var vm2 *asm.VM
 				if ares.OK() {
 					f2 := asm.Parse(ares.Out)
-					if sec2, err := f2.SectionOf(in.label, boundaryOf(alone, f2)); err == nil {
-						vm2 = &asm.VM{F: f2, Sec: sec2, UserTargets: userTargetsOf(rp)}
+					sec2, err := f2.SectionOf(in.label, boundaryOf(alone, f2))
+					if err != nil {
+						bad("script-statement-entry", "the body of inline script %s compiled as a script statement: %v", in.label, err)
+						return
 					}
+					vm2 = &asm.VM{F: f2, Sec: sec2, UserTargets: userTargetsOf(rp)}
+				} else {
+					bad("inline-accepted-script-rejected", "the body of inline script %s is accepted inline but rejected as a script statement: %s", in.label, ares.ErrString())
+					return
 				}
 				for si := 0; si < ctx.N(5, 12); si++ {
 					st := &ref.HashState{Seed: h.Hash64(k.C.Seed, k.Sub, k.Index, in.label, si), Cands: g.Cands()}
